@@ -170,10 +170,6 @@ def oracle(d):
     return None
 
 
-_TIE_NAMES = {'encode_varint': 'utils.encode_varint', 'prepend_compact_size': 'utils.prepend_compact_size', 'parse_compact_size': 'utils.parse_compact_size', 'vi_to_int': 'utils.vi_to_int', 'op_push_data': 'Script._op_push_data', 'push_integer': 'Script._push_integer', 'sequence_init': 'Sequence.__init__', 'for_input_sequence': 'Sequence.for_input_sequence', 'for_script': 'Sequence.for_script', 'locktime_for_transaction': 'Locktime.for_transaction'}
-# source tie (DESIGN 13.8): these functions are also translated from the current source on every run and proved equal to the model
-LEVEL_TEXT = LEVEL_TEXT + (" In addition %s translated from the tree under test on every run (harness/gen_src.py -> coq/Gen/Src.v) and "
-                           "proved equal to the model on every input (coq/Properties/Tie_*.v); where the translator cannot read a function it says so "
-                           "and the check widens its correspondence run instead." % (", ".join(_TIE_NAMES[t] for t in TIES) + (" is" if len(TIES) == 1 else " are")))
-LEVEL_NOTE = LEVEL_NOTE + " Source tie: trusted are the translator harness/gen_src.py and the Python semantics of coq/Lib/PySem.v."
-TECHNIQUE = TECHNIQUE + " + source-to-Gallina translation of the small helpers proved equal to the model"
+# source tie (DESIGN 13.8)
+from common import with_ties
+LEVEL_TEXT, LEVEL_NOTE, TECHNIQUE = with_ties(TIES, LEVEL_TEXT, LEVEL_NOTE, TECHNIQUE)
